@@ -149,3 +149,20 @@ def run_logged(exe, lines, timeout_case=10, data=True, extra_env=None, preload=T
     if os.path.exists(logp):
         os.unlink(logp)
     return results, events
+
+
+def run_lines_bigstack(exe, lines, timeout=900):
+    """like checklib.run_lines, with an unlimited stack (the extracted model recurses over long lists)"""
+    import resource
+
+    def pre():
+        try:
+            resource.setrlimit(resource.RLIMIT_STACK, (resource.RLIM_INFINITY, resource.RLIM_INFINITY))
+        except Exception:
+            pass
+    data = ("\n".join(lines) + "\n").encode()
+    p = subprocess.run([exe], input=data, stdout=subprocess.PIPE, stderr=subprocess.PIPE, timeout=timeout, preexec_fn=pre)
+    out = p.stdout.decode("utf-8", "replace").split("\n")
+    if out and out[-1] == "":
+        out.pop()
+    return p.returncode, out, p.stderr.decode("utf-8", "replace")
